@@ -62,7 +62,7 @@ Qed.
 Print Assumptions C13_stray.
 
 (* ---- the oracle evaluated on the implementation holds of the model, for every input ---- *)
-Require Import Wire.Case Spec.Oracles Spec.OracleFactsCopy.
+Require Import Wire.Case Spec.Oracles Spec.OracleFactsCopy Spec.OracleFactsCopy2.
 From Coq Require Import String.
 Local Open Scope string_scope.
 Local Open Scope list_scope.
@@ -80,6 +80,16 @@ Theorem C13_model_satisfies_oracle : forall sc,
   oracle_C13 sc (run_case sc) = true.
 Proof. exact oracle_C13_model. Qed.
 Print Assumptions C13_model_satisfies_oracle.
+
+(* ... and the second scan [oracle_C13_strict]: for every configuration and client stream, the first result
+   a handler sees in the turn of a message other than CopyDone / Flush / Sync is never end-of-stream (a
+   Terminate, Query, ... inside COPY is an error, never a normal end), and after a CopyInResponse the turn of
+   a message exceeding the size limit is never silent *)
+Theorem C13_model_satisfies_strict : forall sc,
+  (forall v after rest, start (cfg_of_case sc) (sc_raw sc) = Some (v, after, rest) -> v <> version_ssl) ->
+  oracle_C13_strict sc (run_case sc) = true.
+Proof. exact oracle_C13_strict_model. Qed.
+Print Assumptions C13_model_satisfies_strict.
 
 Definition ex_copy_stmt : stmt :=
   {| s_id := 7; s_cols := [ {| c_name := bs "a"; c_table := 0; c_attrno := 0; c_oid := 25; c_width := -1 |} ];
@@ -99,5 +109,6 @@ Example C13_ex_model :
   List.length (client_frames ex_copy_case) = 9%nat /\
   List.length (filter (fun r => match r with OData _ => true | _ => false end) (opres_evs (run_case ex_copy_case))) = 3%nat /\
   List.length (filter (fun m => match m with BCopyIn _ _ => true | _ => false end) (outs (run_case ex_copy_case))) = 3%nat /\
-  oracle_C13 ex_copy_case (run_case ex_copy_case) = true /\ oracle_C13_turns ex_copy_case (run_case ex_copy_case) = true.
+  oracle_C13 ex_copy_case (run_case ex_copy_case) = true /\ oracle_C13_turns ex_copy_case (run_case ex_copy_case) = true /\
+  oracle_C13_strict ex_copy_case (run_case ex_copy_case) = true.
 Proof. vm_compute. repeat split. Qed.
